@@ -19,8 +19,33 @@ _MUST_0BASED = ("any(pos.start.line == l.start.line and pos.end.line == l.end.li
                 " and l.start.column == pos.start.column and l.end.column == pos.end.column for l in self.locations)")
 contract("codemodder.result.Result.match_location",
          params={"self": "Result", "pos": "CodeRange", "node": "Opaque"}, returns="bool", props=["C06"],
-         ensures=[("may: only a location on the node's lines within one column", f"implies(result, {_MAY})"),
+         ensures=[("refines dyn:Result.match_location",
+                   "implies(pos.start.line <= pos.end.line and result, any(pos.start.line <= l.start.line and l.start.line <= pos.end.line for l in self.locations))"),
+                  ("may: only a location on the node's lines within one column", f"implies(result, {_MAY})"),
                   ("must: exact 1-based (SARIF) range is matched", f"implies({_MUST_1BASED}, result)"),
                   ("must: exact 0-based (Sonar) range is matched", f"implies({_MUST_0BASED}, result)"),
                   ("no-locations => no match", "implies(len(self.locations) == 0, not result)")],
+         covers=["result", "not result"])
+
+# ---- overrides of match_location: each carries the dynamic-dispatch clause (refinement obligation) ------------------
+DYN_MATCH = "implies(pos.start.line <= pos.end.line and result, any(pos.start.line <= l.start.line and l.start.line <= pos.end.line for l in self.locations))"
+
+contract("core_codemods.sonar.results.SonarResult.match_location",
+         params={"self": "SonarResult", "pos": "CodeRange", "node": "Opaque"}, returns="bool", props=["C06"],
+         ensures=[("refines dyn:Result.match_location", DYN_MATCH),
+                  ("non-tuple: may", f"implies(not isinstance(node, cst.Tuple) and result, {_MAY})"),
+                  ("non-tuple: must (0-based exact range)", f"implies(not isinstance(node, cst.Tuple) and {_MUST_0BASED}, result)"),
+                  ("tuple: only the parenthesised range of the tuple (one column wider on each side), within one column",
+                   "implies(isinstance(node, cst.Tuple) and result, any(pos.start.line == l.start.line and pos.end.line == l.end.line"
+                   " and 0 <= pos.start.column - l.start.column <= 1 and -2 <= pos.end.column - l.end.column <= -1 for l in self.locations))"),
+                  ("tuple: must (0-based parenthesised range)",
+                   "implies(isinstance(node, cst.Tuple) and any(pos.start.line == l.start.line and pos.end.line == l.end.line"
+                   " and l.start.column == pos.start.column - 1 and l.end.column == pos.end.column + 1 for l in self.locations), result)")],
+         covers=["result and isinstance(node, cst.Tuple)", "result and not isinstance(node, cst.Tuple)"])
+
+contract("core_codemods.defectdojo.results.DefectDojoResult.match_location",
+         params={"self": "DefectDojoResult", "pos": "CodeRange", "node": "Opaque"}, returns="bool", props=["C06"],
+         ensures=[("refines dyn:Result.match_location", DYN_MATCH),
+                  ("line-only: exactly when a location starts inside the node's line range",
+                   "result == any(pos.start.line <= l.start.line and l.start.line <= pos.end.line for l in self.locations)")],
          covers=["result", "not result"])
